@@ -405,6 +405,11 @@ func c12Run(c c12Case) Outcome {
 		time.Sleep(300 * time.Microsecond)
 	}
 	desc := fmt.Sprintf("server stream of %d octets (%d delivered, %d mutations, adversary %q at %d) then %s, closeAt=%d failw=%d faillate=%d", len(stream), n, len(c.Muts), c.Adv, c.AdvAt, c.End, c.CloseAt, c.FailW, c.FailLate)
+	for try := 0; !allDone() && try < 26 && (c12DialInProgress() || peer.AnyLive(speer.ClientGoroutines())); try++ {
+		// the bound is MaxResponseTime plus a margin on a machine that gives the client the CPU; while one of
+		// its goroutines is runnable or a dial is under way it is slow, not stuck. Up to 30 s in all.
+		time.Sleep(time.Second)
+	}
 	if !allDone() && c12DialInProgress() {
 		return Outcome{Inconcl: "a request is still waiting for a connection being dialled (machine too slow)"}
 	}
@@ -525,6 +530,26 @@ func c12Run(c c12Case) Outcome {
 				break
 			}
 			time.Sleep(300 * time.Microsecond)
+		}
+		pending := func() bool {
+			for _, fc := range fcalls {
+				if !fc.Finished() {
+					return true
+				}
+			}
+			return false
+		}
+		if pending() {
+			// the scripted server answers follow-ups from this very loop, so on a starved machine the 3 s can pass
+			// without the exchange having had its turn: decide at quiescence instead (MaxResponseTime ends an
+			// unanswered request on its own, so a request still open at quiescence is stuck in the client)
+			if ok, d := env.Quiesce(); !ok {
+				return Outcome{Inconcl: "follow-up requests still open and no quiescence: " + d}
+			}
+			time.Sleep(c12Timeout + 100*time.Millisecond)
+			if ok, d := env.Quiesce(); !ok {
+				return Outcome{Inconcl: "follow-up requests still open and no quiescence: " + d}
+			}
 		}
 		for i, fc := range fcalls {
 			tag := fmt.Sprintf("f%d", i)
